@@ -57,8 +57,14 @@ func (r *Resource) JSON(v2 bool) map[string]interface{} {
 			// the root generator has no paging flag: start/count are ordinary optional params
 			ps = append(ps, fieldJSON(Opt("start", P(Int32))), fieldJSON(Opt("count", P(Int32))))
 		}
+		re := m.ReturnEntity
+		if !v2 && m.Name == "partial_update" {
+			// the root generator emits a call to restli.PartialUpdateWithReturnEntity, which the root
+			// runtime does not have (recorded under C12); the resource universes avoid the combination
+			re = false
+		}
 		mm := map[string]interface{}{"methodType": m.Kind, "name": m.Name, "doc": "", "onEntity": m.OnEntity,
-			"params": ps, "return": nil, "metadata": nil, "returnEntity": m.ReturnEntity}
+			"params": ps, "return": nil, "metadata": nil, "returnEntity": re}
 		if v2 {
 			mm["isPagingSupported"] = m.Paging
 		}
